@@ -398,6 +398,65 @@ theorem C20_gen_ping (cfg : Config F) (n : Node F) (peer : String) (rttNs : Int)
     cases r <;>
       simp [interpPing, CoordGuards.notifyPingComplete, runPingSteps, stepPing, SerfModel.Coord.notifyPingComplete, hu]
 
+/-- **Regenerated tie (arithmetic bodies).** The statements of the functions the model transcribes by hand
+(latencyFilter, updateVivaldi with the error clamp, updateAdjustment, updateGravity, ApplyForce with the height
+clamp, unitVectorAt, NewCoordinate), comments and layout stripped, are the ones the model was written against.
+Any change of an expression, a comparison, a constant or the order of two statements breaks this obligation; the
+differential run then finds the input on which the behaviour differs. -/
+theorem C20_gen_pinned_sources : CoordGuards.pinned = [
+  ("latencyFilter", [
+    "samples, ok := c.latencyFilterSamples[node]",
+    "if !ok { samples = make([]float64, 0, c.config.LatencyFilterSize) }",
+    "samples = append(samples, rttSeconds)",
+    "if len(samples) > int(c.config.LatencyFilterSize) { samples = samples[1:] }",
+    "c.latencyFilterSamples[node] = samples",
+    "sorted := make([]float64, len(samples))",
+    "copy(sorted, samples)",
+    "sort.Float64s(sorted)",
+    "return sorted[len(sorted)/2]"]),
+  ("updateVivaldi", [
+    "const zeroThreshold = 1.0e-6",
+    "dist := c.coord.DistanceTo(other).Seconds()",
+    "if rttSeconds < zeroThreshold { rttSeconds = zeroThreshold }",
+    "wrongness := math.Abs(dist-rttSeconds) / rttSeconds",
+    "totalError := c.coord.Error + other.Error",
+    "if totalError < zeroThreshold { totalError = zeroThreshold }",
+    "weight := c.coord.Error / totalError",
+    "c.coord.Error = c.config.VivaldiCE*weight*wrongness + c.coord.Error*(1.0-c.config.VivaldiCE*weight)",
+    "if c.coord.Error > c.config.VivaldiErrorMax { c.coord.Error = c.config.VivaldiErrorMax }",
+    "delta := c.config.VivaldiCC * weight",
+    "force := delta * (rttSeconds - dist)",
+    "c.coord = c.coord.ApplyForce(c.config, force, other)"]),
+  ("updateAdjustment", [
+    "if c.config.AdjustmentWindowSize == 0 { return }",
+    "dist := c.coord.rawDistanceTo(other)",
+    "c.adjustmentSamples[c.adjustmentIndex] = rttSeconds - dist",
+    "c.adjustmentIndex = (c.adjustmentIndex + 1) % c.config.AdjustmentWindowSize",
+    "sum := 0.0",
+    "for _, sample := range c.adjustmentSamples { sum += sample }",
+    "c.coord.Adjustment = sum / (2.0 * float64(c.config.AdjustmentWindowSize))"]),
+  ("updateGravity", [
+    "dist := c.origin.DistanceTo(c.coord).Seconds()",
+    "force := -1.0 * math.Pow(dist/c.config.GravityRho, 2.0)",
+    "c.coord = c.coord.ApplyForce(c.config, force, c.origin)"]),
+  ("ApplyForce", [
+    "if !c.IsCompatibleWith(other) { panic(DimensionalityConflictError{}) }",
+    "ret := c.Clone()",
+    "unit, mag := unitVectorAt(config.rand, c.Vec, other.Vec)",
+    "ret.Vec = add(ret.Vec, mul(unit, force))",
+    "if mag > zeroThreshold { ret.Height = (ret.Height+other.Height)*force/mag + ret.Height ret.Height = math.Max(ret.Height, config.HeightMin) }",
+    "return ret"]),
+  ("unitVectorAt", [
+    "ret := diff(vec1, vec2)",
+    "if mag := magnitude(ret); mag > zeroThreshold { return mul(ret, 1.0/mag), mag }",
+    "for i := range ret { if rng != nil { ret[i] = rng.Float64() - 0.5 } else { ret[i] = rand.Float64() - 0.5 } }",
+    "if mag := magnitude(ret); mag > zeroThreshold { return mul(ret, 1.0/mag), 0.0 }",
+    "ret = make([]float64, len(ret))",
+    "ret[0] = 1.0",
+    "return ret, 0.0"]),
+  ("NewCoordinate", [
+    "return &Coordinate{Vec: make([]float64, config.Dimensionality), Error: config.VivaldiErrorMax, Adjustment: 0.0, Height: config.HeightMin}"])] := rfl
+
 end gen
 
 /-! ## 7. every hypothesis is necessary (exact arithmetic, so none of this is a rounding artefact)
